@@ -418,45 +418,15 @@ Proof.
   destruct (strip (nl c) ts (t :: pre c)) as [p2 q2]. cbn [snd post length] in *. lia.
 Qed.
 
-Lemma ta_inner_spec : forall f c acc, length (post c) < f -> frag (post c) ->
-  match type_assignable_inner f c acc with
-  | Fuel => False
-  | Ok (_, c1) => frag (post c1)
-  | Err => True
-  end.
-Proof.
-  induction f as [|f IH]; intros c acc L F; [lia|].
-  cbn [type_assignable_inner]. destruct (token c) as [n| | | | | | |] eqn:Tk; try exact F.
-  destruct (is_capitalized n); [apply skip_frag; exact F|].
-  unfold expect. destruct (is_k KDot (skip 1 c)) eqn:Ed; [|exact I]. cbn [bind].
-  apply IH; [|apply skip_frag; apply skip_frag; exact F].
-  assert (Ne : post c <> []) by (unfold token in Tk; destruct (post c); [discriminate|discriminate]).
-  pose proof (skip1_len_tok c Ne ltac:(rewrite Tk; discriminate)).
-  pose proof (skip_len_le 1 (skip 1 c)). lia.
-Qed.
-
-Lemma ta_spec c : frag (post c) ->
-  match type_assignable c with
-  | Fuel => False
-  | Ok (_, c1) => frag (post c1)
-  | Err => True
-  end.
-Proof.
-  intros F. unfold type_assignable. destruct (token c) as [n| | | | | | |] eqn:Tk; try exact I.
-  destruct (is_capitalized n); [apply skip_frag; exact F|].
-  unfold expect. destruct (is_k KDot (skip 1 c)) eqn:Ed; [|exact I]. cbn [bind].
-  apply ta_inner_spec; [|apply skip_frag; apply skip_frag; exact F].
-  pose proof (skip_len_le 1 (skip 1 c)). pose proof (skip_len_le 1 c). unfold local_fuel. lia.
-Qed.
-
 (* type_assignable on related contexts: same type path, related cursors (the local fuels differ) *)
 Definition TAR b s (x x' : tyass * ctx) : Prop := fst x = fst x' /\ rel b s (snd x) (snd x').
 
 Definition resrel0 {A : Type} (RA : A -> A -> Prop) (r r' : res A) : Prop :=
   match r, r' with
   | Ok a, Ok a' => RA a a'
-  | Err, Err => True
+  | Err _ _, Err _ _ => True
   | Fuel, Fuel => True
+  | Panic, Panic => True
   | _, _ => False
   end.
 
@@ -535,15 +505,17 @@ Definition orel (b : bool) (s : list bool) (o o' : out) : Prop :=
 Definition resrel {A : Type} (RA : A -> A -> Prop) (r r' : res A) : Prop :=
   match r, r' with
   | Ok a, Ok a' => RA a a'
-  | Err, Err => True
+  | Err _ _, Err _ _ => True
   | Fuel, Fuel => True
+  | Panic, Panic => True
   | _, _ => False
   end.
 
 Inductive prel {A : Type} (RA : A -> A -> Prop) : prog A -> prog A -> Prop :=
 | prel_ret r r' : resrel RA r r' -> prel RA (Ret r) (Ret r')
 | prel_call b s q q' k k' e e' :
-    qrel b s q q' -> (forall o o', orel b s o o' -> prel RA (k o) (k' o')) -> prel RA e e' ->
+    qrel b s q q' -> (forall o o', orel b s o o' -> prel RA (k o) (k' o')) ->
+    (forall c es c' es', prel RA (e c es) (e' c' es')) ->
     prel RA (Call q k e) (Call q' k' e').
 
 Lemma run_rel {A : Type} (RA : A -> A -> Prop) (rec rec' : req -> res out) :
@@ -553,27 +525,37 @@ Proof.
   intros HR m m' H. induction H as [r r' Hr|b s q q' k k' e e' Hq Hk IHk He IHe].
   - exact Hr.
   - cbn [run]. specialize (HR b s q q' Hq). unfold resrel in HR.
-    destruct (rec q) as [o| |], (rec' q') as [o'| |]; try contradiction; try exact I.
+    destruct (rec q) as [o|c es| |], (rec' q') as [o'|c' es'| |]; try contradiction; try exact I.
     + apply IHk. exact HR.
-    + exact IHe.
+    + apply IHe.
 Qed.
 
-Lemma ptry_rel {A B : Type} (RA : A -> A -> Prop) (RB : B -> B -> Prop) m m' (k k' : A -> prog B) e e' :
-  prel RA m m' -> (forall a a', RA a a' -> prel RB (k a) (k' a')) -> prel RB e e' ->
+Lemma ptry_rel {A B : Type} (RA : A -> A -> Prop) (RB : B -> B -> Prop) m m' (k k' : A -> prog B)
+  (e e' : ctx -> list nat -> prog B) :
+  prel RA m m' -> (forall a a', RA a a' -> prel RB (k a) (k' a')) ->
+  (forall c es c' es', prel RB (e c es) (e' c' es')) ->
   prel RB (ptry m k e) (ptry m' k' e').
 Proof.
   intros H Hk He. induction H as [r r' Hr|b s q q' k0 k0' e0 e0' Hq Hk0 IHk He0 IHe].
-  - destruct r as [a| |], r' as [a'| |]; try contradiction; cbn [ptry].
+  - destruct r as [a|c es| |], r' as [a'|c' es'| |]; try contradiction; cbn [ptry].
     + apply Hk. exact Hr.
-    + exact He.
+    + apply He.
     + constructor. exact I.
-  - cbn [ptry]. econstructor; [exact Hq| |exact IHe]. intros o o' Ho. apply IHk. exact Ho.
+    + constructor. exact I.
+  - cbn [ptry]. econstructor; [exact Hq| |]; [intros o o' Ho; apply IHk; exact Ho|].
+    intros c es c' es'. apply IHe.
 Qed.
 
 Lemma prel_ok {A : Type} (RA : A -> A -> Prop) a a' : RA a a' -> prel RA (ok a) (ok a').
 Proof. intros H. constructor. exact H. Qed.
-Lemma prel_err {A : Type} (RA : A -> A -> Prop) : prel RA err err.
+(* two errors are related whatever they carry *)
+Lemma prel_raise {A : Type} (RA : A -> A -> Prop) c c' : prel RA (praise c) (praise c').
 Proof. constructor. exact I. Qed.
+Lemma prel_reraise {A : Type} (RA : A -> A -> Prop) c es c' es' : prel RA (reraise c es) (reraise c' es').
+Proof. constructor. exact I. Qed.
+Lemma prel_panic {A : Type} (RA : A -> A -> Prop) : prel RA panic panic.
+Proof. constructor. exact I. Qed.
+Ltac rr := first [apply prel_raise | apply prel_panic | (intros; apply prel_reraise)].
 
 Definition ER b s (x x' : expr * ctx) : Prop := fst x = fst x' /\ rel b s (snd x) (snd x').
 Definition AR b s (x x' : assignable * ctx) : Prop := fst x = fst x' /\ rel b s (snd x) (snd x').
@@ -583,36 +565,36 @@ Definition FsR b s (x x' : list (name * expr) * ctx) : Prop := fst x = fst x' /\
 Definition CR b s (c c' : ctx) : Prop := rel b s c c'.
 
 Lemma call_rel b s q q' : qrel b s q q' -> prel (orel b s) (call q) (call q').
-Proof. intros H. unfold call. econstructor; [exact H| |apply prel_err]. intros o o' Ho. apply prel_ok. exact Ho. Qed.
+Proof. intros H. unfold call. econstructor; [exact H| |rr]. intros o o' Ho. apply prel_ok. exact Ho. Qed.
 
 Lemma call_E_rel b s q q' : qrel b s q q' -> prel (ER b s) (call_E q) (call_E q').
 Proof.
-  intros H. unfold call_E. econstructor; [exact H| |apply prel_err]. intros o o' Ho.
-  destruct o, o'; try contradiction; cbn [get_E]; try apply prel_err. apply prel_ok. exact Ho.
+  intros H. unfold call_E. econstructor; [exact H| |rr]. intros o o' Ho.
+  destruct o, o'; try contradiction; cbn [get_E]; try apply prel_panic. apply prel_ok. exact Ho.
 Qed.
 
 Lemma call_A_rel b s q q' : qrel b s q q' -> prel (AR b s) (call_A q) (call_A q').
 Proof.
-  intros H. unfold call_A. econstructor; [exact H| |apply prel_err]. intros o o' Ho.
-  destruct o, o'; try contradiction; cbn [get_A]; try apply prel_err. apply prel_ok. exact Ho.
+  intros H. unfold call_A. econstructor; [exact H| |rr]. intros o o' Ho.
+  destruct o, o'; try contradiction; cbn [get_A]; try apply prel_panic. apply prel_ok. exact Ho.
 Qed.
 
 Lemma call_Es_rel b s q q' : qrel b s q q' -> prel (EsR b s) (call_Es q) (call_Es q').
 Proof.
-  intros H. unfold call_Es. econstructor; [exact H| |apply prel_err]. intros o o' Ho.
-  destruct o, o'; try contradiction; cbn [get_Es]; try apply prel_err. apply prel_ok. exact Ho.
+  intros H. unfold call_Es. econstructor; [exact H| |rr]. intros o o' Ho.
+  destruct o, o'; try contradiction; cbn [get_Es]; try apply prel_panic. apply prel_ok. exact Ho.
 Qed.
 
 Lemma call_Fs_rel b s q q' : qrel b s q q' -> prel (FsR b s) (call_Fs q) (call_Fs q').
 Proof.
-  intros H. unfold call_Fs. econstructor; [exact H| |apply prel_err]. intros o o' Ho.
-  destruct o, o'; try contradiction; cbn [get_Fs]; try apply prel_err. apply prel_ok. exact Ho.
+  intros H. unfold call_Fs. econstructor; [exact H| |rr]. intros o o' Ho.
+  destruct o, o'; try contradiction; cbn [get_Fs]; try apply prel_panic. apply prel_ok. exact Ho.
 Qed.
 
 Lemma call_Tup_rel b s q q' : qrel b s q q' -> prel (TupR b s) (call_Tup q) (call_Tup q').
 Proof.
-  intros H. unfold call_Tup. econstructor; [exact H| |apply prel_err]. intros o o' Ho.
-  destruct o, o'; try contradiction; cbn [get_Tup]; try apply prel_err. apply prel_ok.
+  intros H. unfold call_Tup. econstructor; [exact H| |rr]. intros o o' Ho.
+  destruct o, o'; try contradiction; cbn [get_Tup]; try apply prel_panic. apply prel_ok.
   destruct Ho as (-> & -> & R). split; [reflexivity|exact R].
 Qed.
 
@@ -654,13 +636,13 @@ Proof.
   intros R. unfold step_args. rewrite <- (rel_token b s c c' R).
   assert (D : prel (orel b s)
     (ptry (expression T c) (fun '(e, c1) => call (QArgs pr (acc ++ [e]) (after_arg c1)))
-          (if pr then ok (REs acc c) else err))
+          (fun c0 es => if pr then ok (REs acc c) else reraise c0 es))
     (ptry (expression T c') (fun '(e, c1) => call (QArgs pr (acc ++ [e]) (after_arg c1)))
-          (if pr then ok (REs acc c') else err))).
+          (fun c0 es => if pr then ok (REs acc c') else reraise c0 es))).
   { apply (ptry_rel (ER b s)); [apply expression_rel; exact R| |].
     - intros [e c1] [e' c1'] [He Rc]. cbn [fst snd] in He, Rc. subst e'. apply call_rel.
       repeat (split; [reflexivity|]). apply rel_after_arg. exact Rc.
-    - destruct pr; [apply prel_ok; split; [reflexivity|exact R]|apply prel_err]. }
+    - intros c0 es c0' es'. destruct pr; [apply prel_ok; split; [reflexivity|exact R]|apply prel_reraise]. }
   destruct (token c) as [| | | | | |k|]; try exact D.
   - destruct k; try exact D. apply prel_ok. split; [reflexivity|exact R].
   - apply prel_ok. split; [reflexivity|exact R].
@@ -680,18 +662,18 @@ Proof.
     (ptry (expression T d)
        (fun '(e, c1) => let is_tuple' := i || is_k KComma c1 in
           if is_tuple' then if is_k KComma c1 || is_k KRightParen c1
-                            then call (QTuple true (acc ++ [e]) (skip_if KComma c1)) else err
-          else ok (RTup false (acc ++ [e]) c1)) err)
+                            then call (QTuple true (acc ++ [e]) (skip_if KComma c1)) else praise c1
+          else ok (RTup false (acc ++ [e]) c1)) reraise)
     (ptry (expression T d')
        (fun '(e, c1) => let is_tuple' := i || is_k KComma c1 in
           if is_tuple' then if is_k KComma c1 || is_k KRightParen c1
-                            then call (QTuple true (acc ++ [e]) (skip_if KComma c1)) else err
-          else ok (RTup false (acc ++ [e]) c1)) err)).
-  { apply (ptry_rel (ER b s)); [apply expression_rel; exact R| |apply prel_err].
+                            then call (QTuple true (acc ++ [e]) (skip_if KComma c1)) else praise c1
+          else ok (RTup false (acc ++ [e]) c1)) reraise)).
+  { apply (ptry_rel (ER b s)); [apply expression_rel; exact R| |rr].
     intros [e c1] [e' c1'] [He Rc]. cbn [fst snd] in He, Rc. subst e'. cbv zeta.
     rewrite <- !(rel_is_k b s c1 c1' _ Rc).
     destruct (i || is_k KComma c1).
-    - destruct (is_k KComma c1 || is_k KRightParen c1); [|apply prel_err].
+    - destruct (is_k KComma c1 || is_k KRightParen c1); [|rr].
       apply call_rel. repeat (split; [reflexivity|]). apply rel_skip_if; [exact Rc|reflexivity|reflexivity].
     - apply prel_ok. repeat (split; [reflexivity|]). exact Rc. }
   destruct (token d) as [| | | | | |k|]; try exact D.
@@ -706,14 +688,14 @@ Proof.
   assert (D : prel (orel b s)
     (ptry (expression T c)
        (fun '(e, c1) => if is_k KComma c1 || is_k KRightBracket c1
-                        then call (QList (acc ++ [e]) (skip_if KComma c1)) else err) err)
+                        then call (QList (acc ++ [e]) (skip_if KComma c1)) else praise c1) reraise)
     (ptry (expression T c')
        (fun '(e, c1) => if is_k KComma c1 || is_k KRightBracket c1
-                        then call (QList (acc ++ [e]) (skip_if KComma c1)) else err) err)).
-  { apply (ptry_rel (ER b s)); [apply expression_rel; exact R| |apply prel_err].
+                        then call (QList (acc ++ [e]) (skip_if KComma c1)) else praise c1) reraise)).
+  { apply (ptry_rel (ER b s)); [apply expression_rel; exact R| |rr].
     intros [e c1] [e' c1'] [He Rc]. cbn [fst snd] in He, Rc. subst e'.
     rewrite <- !(rel_is_k b s c1 c1' _ Rc).
-    destruct (is_k KComma c1 || is_k KRightBracket c1); [|apply prel_err].
+    destruct (is_k KComma c1 || is_k KRightBracket c1); [|rr].
     apply call_rel. repeat (split; [reflexivity|]). apply rel_skip_if; [exact Rc|reflexivity|reflexivity]. }
   destruct (token c) as [| | | | | |k|]; try exact D.
   - destruct k; try exact D. apply prel_ok. split; [reflexivity|exact R].
@@ -738,18 +720,18 @@ Proof.
     destruct (rel_push_same b s _ _ R1) as (R2 & O1 & O2).
     destruct (push_nl b (skip 1 c)) as [c2 old]. destruct (push_nl b (skip 1 c')) as [c2' old'].
     cbn [fst snd] in R2, O1, O2. subst old old'.
-    apply (ptry_rel (EsR b s)); [apply call_Es_rel; repeat (split; [reflexivity|]); exact R2| |apply prel_err].
+    apply (ptry_rel (EsR b s)); [apply call_Es_rel; repeat (split; [reflexivity|]); exact R2| |rr].
     intros [args c3] [args' c3'] [Ha Rc]. cbn [fst snd] in Ha, Rc. subst args'.
-    apply (ptry_rel (CR b s)); [apply prel_ok; apply rel_pop_same; exact Rc| |apply prel_err].
+    apply (ptry_rel (CR b s)); [apply prel_ok; apply rel_pop_same; exact Rc| |rr].
     intros c5 c5' R5. apply sub_tail_rel. exact R5.
   - (* f( ... ) *)
     assert (P : is_k KPrime c = false) by (unfold is_k; rewrite Tk; reflexivity). rewrite P.
     destruct (rel_enter b s c c' R) as (R2 & O1 & O2); [rewrite Tk; reflexivity|].
     destruct (push_nl true (skip 1 c)) as [c2 old]. destruct (push_nl true (skip 1 c')) as [c2' old'].
     cbn [fst snd] in R2, O1, O2. subst old old'.
-    apply (ptry_rel (EsR true (b :: s))); [apply call_Es_rel; repeat (split; [reflexivity|]); exact R2| |apply prel_err].
+    apply (ptry_rel (EsR true (b :: s))); [apply call_Es_rel; repeat (split; [reflexivity|]); exact R2| |rr].
     intros [args c3] [args' c3'] [Ha Rc]. cbn [fst snd] in Ha, Rc. subst args'.
-    apply (ptry_rel (CR b s)); [apply (pexpect_leave true); [exact Rc|reflexivity]| |apply prel_err].
+    apply (ptry_rel (CR b s)); [apply (pexpect_leave true); [exact Rc|reflexivity]| |rr].
     intros c5 c5' R5. apply sub_tail_rel. exact R5.
 Qed.
 
@@ -760,10 +742,10 @@ Proof.
   destruct (rel_enter b s c c' R) as (R2 & O1 & O2); [rewrite Tk; reflexivity|].
   destruct (push_nl true (skip 1 c)) as [c2 old]. destruct (push_nl true (skip 1 c')) as [c2' old'].
   cbn [fst snd] in R2, O1, O2. subst old old'.
-  apply (ptry_rel (ER true (b :: s))); [apply expression_rel; exact R2| |apply prel_err].
+  apply (ptry_rel (ER true (b :: s))); [apply expression_rel; exact R2| |rr].
   intros [e c3] [e' c3'] [He Rc]. cbn [fst snd] in He, Rc. subst e'.
-  destruct e; try apply prel_err.
-  apply (ptry_rel (CR b s)); [apply (pexpect_leave true); [exact Rc|reflexivity]| |apply prel_err].
+  destruct e; try apply prel_raise.
+  apply (ptry_rel (CR b s)); [apply (pexpect_leave true); [exact Rc|reflexivity]| |rr].
   intros c5 c5' R5. apply sub_tail_rel. exact R5.
 Qed.
 
@@ -774,17 +756,17 @@ Lemma assignable_variant_rel b s a c c' : rel b s c c' ->
   prel (orel b s) (assignable_variant T c a) (assignable_variant T c' a).
 Proof.
   intros R. unfold assignable_variant.
-  destruct (match a with ARead n => Some n | AAccess _ n => Some n | _ => None end) as [en|]; [|apply prel_err].
-  destruct (negb (is_capitalized en)); [apply prel_err|].
-  apply (ptry_rel (CR b s)); [apply pexpect_rel_plain; [exact R|reflexivity|reflexivity]| |apply prel_err].
+  destruct (match a with ARead n => Some n | AAccess _ n => Some n | _ => None end) as [en|]; [|rr].
+  destruct (negb (is_capitalized en)); [apply prel_raise|].
+  apply (ptry_rel (CR b s)); [apply pexpect_rel_plain; [exact R|reflexivity|reflexivity]| |rr].
   intros c1 c1' R1. rewrite <- (rel_token b s c1 c1' R1).
-  destruct (token c1) as [v| | | | | | |] eqn:Tk; try apply prel_err.
-  destruct (negb (is_capitalized v)); [apply prel_err|]. cbv zeta.
+  destruct (token c1) as [v| | | | | | |] eqn:Tk; try apply prel_raise. cbv zeta.
+  destruct (negb (is_capitalized v)); [apply prel_raise|].
   assert (R2 : rel b s (skip 1 c1) (skip 1 c1')) by (apply rel_skip_plain; [exact R1| |]; rewrite Tk; reflexivity).
-  apply (ptry_rel (ER b s)); [| |apply prel_err].
+  apply (ptry_rel (ER b s)); [| |rr].
   - apply (ptry_rel (ER b s)); [apply expression_rel; exact R2| |].
     + intros x x' Hx. apply prel_ok. exact Hx.
-    + apply prel_ok. split; [reflexivity|exact R2].
+    + intros. apply prel_ok. split; [reflexivity|exact R2].
   - intros [value c3] [value' c3'] [Hv Rc]. cbn [fst snd] in Hv, Rc. subst value'.
     apply prel_ok. split; [reflexivity|exact Rc].
 Qed.
@@ -795,7 +777,7 @@ Proof.
   intros R Tk. unfold assignable_dot.
   assert (R1 : rel b s (skip 1 c) (skip 1 c')) by (apply rel_skip_plain; [exact R| |]; rewrite Tk; reflexivity).
   rewrite <- (rel_token b s _ _ R1).
-  destruct (token (skip 1 c)) as [n| | | | | | |] eqn:Tk1; try apply prel_err.
+  destruct (token (skip 1 c)) as [n| | | | | | |] eqn:Tk1; try apply prel_raise.
   apply sub_tail_rel. apply rel_skip_plain; [exact R1| |]; rewrite Tk1; reflexivity.
 Qed.
 
@@ -808,7 +790,7 @@ Proof.
   - apply assignable_call_rel; [exact R|right; exact Tk].
   - apply assignable_index_rel; [exact R|exact Tk].
   - apply assignable_call_rel; [exact R|left; exact Tk].
-  - apply (ptry_rel (orel b s)); [apply assignable_variant_rel; exact R| |apply assignable_dot_rel; assumption].
+  - apply (ptry_rel (orel b s)); [apply assignable_variant_rel; exact R| |intros; apply assignable_dot_rel; assumption].
     intros o o' Ho. apply prel_ok. exact Ho.
 Qed.
 
@@ -818,16 +800,16 @@ Lemma step_fields_rel b s acc c c' : rel b s c c' ->
   prel (orel b s) (step_fields T acc c) (step_fields T acc c').
 Proof.
   intros R. unfold step_fields. rewrite <- (rel_token b s c c' R).
-  destruct (token c) as [n| | | | | |k|] eqn:Tk; try apply prel_err.
+  destruct (token c) as [n| | | | | |k|] eqn:Tk; try apply prel_raise.
   - assert (R1 : rel b s (skip 1 c) (skip 1 c')) by (apply rel_skip_plain; [exact R| |]; rewrite Tk; reflexivity).
-    apply (ptry_rel (CR b s)); [apply pexpect_rel_plain; [exact R1|reflexivity|reflexivity]| |apply prel_err].
+    apply (ptry_rel (CR b s)); [apply pexpect_rel_plain; [exact R1|reflexivity|reflexivity]| |rr].
     intros c1 c1' Rc1.
-    apply (ptry_rel (ER b s)); [apply expression_rel; exact Rc1| |apply prel_err].
+    apply (ptry_rel (ER b s)); [apply expression_rel; exact Rc1| |rr].
     intros [e c2] [e' c2'] [He Rc]. cbn [fst snd] in He, Rc. subst e'.
     rewrite <- !(rel_is_k b s c2 c2' _ Rc).
-    destruct (is_k KComma c2 || is_k KRightBrace c2); [|apply prel_err].
+    destruct (is_k KComma c2 || is_k KRightBrace c2); [|rr].
     apply call_rel. repeat (split; [reflexivity|]). apply rel_skip_if; [exact Rc|reflexivity|reflexivity].
-  - destruct k; try apply prel_err. apply prel_ok. split; [reflexivity|exact R].
+  - destruct k; try apply prel_raise. apply prel_ok. split; [reflexivity|exact R].
   - apply prel_ok. split; [reflexivity|exact R].
 Qed.
 
@@ -840,20 +822,20 @@ Lemma blob_rel b s c c' : rel b s c c' -> prel (orel b s) (blob c) (blob c').
 Proof.
   intros R. unfold blob.
   pose proof (ta_rel b s c c' R) as Ta.
-  destruct (type_assignable c) as [[x c1]| |], (type_assignable c') as [[x' c1']| |]; try contradiction;
-    cbn [ptry]; try apply prel_err; try (constructor; exact I).
+  destruct (type_assignable c) as [[x c1]|ce es| |], (type_assignable c') as [[x' c1']|ce' es'| |];
+    try contradiction; cbn [ptry]; try (constructor; exact I).
   destruct Ta as [Hx R1]. cbn [fst snd] in Hx, R1. subst x'.
   unfold pexpect at 1 3. unfold expect. rewrite <- (rel_is_k b s c1 c1' KLeftBrace R1).
-  destruct (is_k KLeftBrace c1) eqn:Ek; cbn [ptry]; [|apply prel_err].
+  destruct (is_k KLeftBrace c1) eqn:Ek; cbn [ptry raise]; [|constructor; exact I].
   destruct (expect_enter b s c1 c1' KLeftBrace R1 eq_refl Ek) as (R2 & O1 & O2).
   destruct (push_nl true (skip 1 c1)) as [c3 old]. destruct (push_nl true (skip 1 c1')) as [c3' old'].
   cbn [fst snd] in R2, O1, O2. subst old old'.
   apply (ptry_rel (FsR true (b :: s)));
-    [apply call_Fs_rel; repeat (split; [reflexivity|]); exact R2| |apply prel_err].
+    [apply call_Fs_rel; repeat (split; [reflexivity|]); exact R2| |rr].
   intros [fs c4] [fs' c4'] [Hf Rc]. cbn [fst snd] in Hf, Rc. subst fs'.
-  apply (ptry_rel (CR b s)); [apply (pexpect_leave true); [exact Rc|reflexivity]| |apply prel_err].
+  apply (ptry_rel (CR b s)); [apply (pexpect_leave true); [exact Rc|reflexivity]| |rr].
   intros c6 c6' R6. rewrite <- (rel_is_k b s c6 c6' KElse R6).
-  destruct (is_k KElse c6); [apply prel_err|]. apply prel_ok. split; [reflexivity|exact R6].
+  destruct (is_k KElse c6); [apply prel_raise|]. apply prel_ok. split; [reflexivity|exact R6].
 Qed.
 
 (* ---- prefix ---- *)
@@ -863,8 +845,8 @@ Lemma value_rel b s c c' : rel b s c c' -> opener (token c) = false -> closer (t
 Proof.
   intros R O Cl. unfold value. rewrite <- (rel_token b s c c' R).
   pose proof (rel_skip_plain b s c c' R O Cl) as R1.
-  destruct (token c) as [| | | | | |k|]; try apply prel_err; try (apply prel_ok; split; [reflexivity|exact R1]).
-  destruct k; try apply prel_err. apply prel_ok; split; [reflexivity|exact R1].
+  destruct (token c) as [| | | | | |k|]; try apply prel_raise; try (apply prel_ok; split; [reflexivity|exact R1]).
+  destruct k; try apply prel_raise. apply prel_ok; split; [reflexivity|exact R1].
 Qed.
 
 Lemma unary_rel b s c c' : rel b s c c' -> opener (token c) = false -> closer (token c) = false ->
@@ -872,9 +854,9 @@ Lemma unary_rel b s c c' : rel b s c c' -> opener (token c) = false -> closer (t
 Proof.
   intros R O Cl. unfold unary. rewrite <- (rel_token b s c c' R).
   pose proof (rel_skip_plain b s c c' R O Cl) as R1.
-  apply (ptry_rel (ER b s)); [apply call_E_rel; split; [reflexivity|exact R1]| |apply prel_err].
+  apply (ptry_rel (ER b s)); [apply call_E_rel; split; [reflexivity|exact R1]| |rr].
   intros [e c2] [e' c2'] [He Rc]. cbn [fst snd] in He, Rc. subst e'.
-  destruct (pt_unary T (token c)); [|apply prel_err]. apply prel_ok. split; [reflexivity|exact Rc].
+  destruct (pt_unary T (token c)); [|rr]. apply prel_ok. split; [reflexivity|exact Rc].
 Qed.
 
 Lemma grouping_rel b s c c' : rel b s c c' -> token c = TK KLeftParen ->
@@ -886,12 +868,12 @@ Proof.
   cbn [fst snd] in R2, O1, O2. subst old old'. cbv zeta.
   rewrite <- !(rel_is_k true (b :: s) c2 c2' _ R2).
   apply (ptry_rel (TupR true (b :: s)));
-    [apply call_Tup_rel; repeat (split; [reflexivity|]); exact R2| |apply prel_err].
+    [apply call_Tup_rel; repeat (split; [reflexivity|]); exact R2| |rr].
   intros [[i es] c3] [[i' es'] c3'] [Hx Rc]. cbn [fst snd] in Hx, Rc. inversion Hx; subst i' es'.
-  apply (ptry_rel (CR b s)); [apply (pexpect_leave true); [exact Rc|reflexivity]| |apply prel_err].
+  apply (ptry_rel (CR b s)); [apply (pexpect_leave true); [exact Rc|reflexivity]| |rr].
   intros c5 c5' R5. destruct i.
   - apply prel_ok. split; [reflexivity|exact R5].
-  - destruct es; [apply prel_err|]. apply prel_ok. split; [reflexivity|exact R5].
+  - destruct es; [apply prel_panic|]. apply prel_ok. split; [reflexivity|exact R5].
 Qed.
 
 Lemma list_expr_rel b s c c' : rel b s c c' -> token c = TK KLeftBracket ->
@@ -902,9 +884,9 @@ Proof.
   destruct (push_nl true (skip 1 c)) as [c2 old]. destruct (push_nl true (skip 1 c')) as [c2' old'].
   cbn [fst snd] in R2, O1, O2. subst old old'.
   apply (ptry_rel (EsR true (b :: s)));
-    [apply call_Es_rel; repeat (split; [reflexivity|]); exact R2| |apply prel_err].
+    [apply call_Es_rel; repeat (split; [reflexivity|]); exact R2| |rr].
   intros [es c3] [es' c3'] [Hx Rc]. cbn [fst snd] in Hx, Rc. subst es'.
-  apply (ptry_rel (CR b s)); [apply (pexpect_leave true); [exact Rc|reflexivity]| |apply prel_err].
+  apply (ptry_rel (CR b s)); [apply (pexpect_leave true); [exact Rc|reflexivity]| |rr].
   intros c5 c5' R5. apply prel_ok. split; [reflexivity|exact R5].
 Qed.
 
@@ -912,31 +894,37 @@ Lemma ident_prefix_rel b s c c' n : rel b s c c' -> token c = TIdent n ->
   prel (orel b s)
     (match type_assignable c with
      | Fuel => Ret Fuel
+     | Panic => Ret Panic
      | probe =>
          let is_blob := match probe with Ok (_, c1) => is_k KLeftBrace c1 | _ => false end in
-         if is_blob then blob c
-         else ptry (assignable_p c) (fun '(a, c1) => ok (RE (EGet a) c1)) err
+         if is_blob then ptry (blob c) ok (fun c' es => Ret (Err (skip_until KRightBrace c') es))
+         else ptry (assignable_p c) (fun '(a, c1) => ok (RE (EGet a) c1)) reraise
      end)
     (match type_assignable c' with
      | Fuel => Ret Fuel
+     | Panic => Ret Panic
      | probe =>
          let is_blob := match probe with Ok (_, c1) => is_k KLeftBrace c1 | _ => false end in
-         if is_blob then blob c'
-         else ptry (assignable_p c') (fun '(a, c1) => ok (RE (EGet a) c1)) err
+         if is_blob then ptry (blob c') ok (fun c' es => Ret (Err (skip_until KRightBrace c') es))
+         else ptry (assignable_p c') (fun '(a, c1) => ok (RE (EGet a) c1)) reraise
      end).
 Proof.
   intros R Tk.
-  assert (G : prel (orel b s) (ptry (assignable_p c) (fun '(a, c1) => ok (RE (EGet a) c1)) err)
-                              (ptry (assignable_p c') (fun '(a, c1) => ok (RE (EGet a) c1)) err)).
+  assert (G : prel (orel b s) (ptry (assignable_p c) (fun '(a, c1) => ok (RE (EGet a) c1)) reraise)
+                              (ptry (assignable_p c') (fun '(a, c1) => ok (RE (EGet a) c1)) reraise)).
   { unfold assignable_p. rewrite <- (rel_token b s c c' R), Tk.
-    apply (ptry_rel (AR b s)); [| |apply prel_err].
+    apply (ptry_rel (AR b s)); [| |rr].
     - apply call_A_rel. split; [reflexivity|]. apply rel_skip_plain; [exact R| |]; rewrite Tk; reflexivity.
     - intros [a c1] [a' c1'] [Ha Rc]. cbn [fst snd] in Ha, Rc. subst a'. apply prel_ok. split; [reflexivity|exact Rc]. }
   pose proof (ta_rel b s c c' R) as Ta.
-  destruct (type_assignable c) as [[x c1]| |], (type_assignable c') as [[x' c1']| |]; try contradiction.
+  destruct (type_assignable c) as [[x c1]|ce es| |], (type_assignable c') as [[x' c1']|ce' es'| |]; try contradiction.
   - destruct Ta as [_ R1]. cbn [snd] in R1. cbv zeta. rewrite <- (rel_is_k b s c1 c1' KLeftBrace R1).
-    destruct (is_k KLeftBrace c1); [apply blob_rel; exact R|exact G].
+    destruct (is_k KLeftBrace c1); [|exact G].
+    apply (ptry_rel (orel b s)); [apply blob_rel; exact R| |].
+    + intros o o' Ho. apply prel_ok. exact Ho.
+    + intros. constructor. exact I.
   - exact G.
+  - constructor. exact I.
   - constructor. exact I.
 Qed.
 
@@ -950,13 +938,13 @@ Proof.
   - apply value_rel; [exact R| |]; rewrite Tk; reflexivity.
   - apply value_rel; [exact R| |]; rewrite Tk; reflexivity.
   - apply value_rel; [exact R| |]; rewrite Tk; reflexivity.
-  - destruct (pt_unary T TComment); [|apply prel_err]. apply unary_rel; [exact R| |]; rewrite Tk; reflexivity.
+  - destruct (pt_unary T TComment); [|rr]. apply unary_rel; [exact R| |]; rewrite Tk; reflexivity.
   - destruct k; try discriminate;
       try (apply value_rel; [exact R| |]; rewrite Tk; reflexivity);
       try (apply grouping_rel; assumption); try (apply list_expr_rel; assumption);
       try (match goal with
            | |- prel _ (match pt_unary T ?t with _ => _ end) _ =>
-               destruct (pt_unary T t) eqn:Eu; [|apply prel_err];
+               destruct (pt_unary T t) eqn:Eu; [|apply prel_raise];
                apply unary_rel; [exact R| |]; rewrite Tk; try reflexivity
            end).
     + (* `)` as a unary operator is excluded by [bracket_sane] *)
@@ -964,7 +952,7 @@ Proof.
     + destruct (sane (TK KRightBracket) (or_intror eq_refl)) as [X _]. congruence.
     + destruct (sane (TK KLeftBrace) (or_introl eq_refl)) as [X _]. congruence.
     + destruct (sane (TK KRightBrace) (or_intror eq_refl)) as [X _]. congruence.
-  - destruct (pt_unary T TEOF); [|apply prel_err]. apply unary_rel; [exact R| |]; rewrite Tk; reflexivity.
+  - destruct (pt_unary T TEOF); [|rr]. apply unary_rel; [exact R| |]; rewrite Tk; reflexivity.
 Qed.
 
 (* ---- infix, the loop, parse_precedence ---- *)
@@ -973,11 +961,11 @@ Lemma arrow_call_rel b s lhs c c' : rel b s c c' ->
   prel (orel b s) (arrow_call T c lhs) (arrow_call T c' lhs).
 Proof.
   intros R. unfold arrow_call.
-  apply (ptry_rel (CR b s)); [apply pexpect_rel_plain; [exact R|reflexivity|reflexivity]| |apply prel_err].
+  apply (ptry_rel (CR b s)); [apply pexpect_rel_plain; [exact R|reflexivity|reflexivity]| |rr].
   intros c1 c1' R1.
-  apply (ptry_rel (ER b s)); [apply expression_rel; exact R1| |apply prel_err].
+  apply (ptry_rel (ER b s)); [apply expression_rel; exact R1| |rr].
   intros [rhs c2] [rhs' c2'] [Hr Rc]. cbn [fst snd] in Hr, Rc. subst rhs'.
-  destruct (prepend lhs rhs); [|apply prel_err]. apply prel_ok. split; [reflexivity|exact Rc].
+  destruct (prepend lhs rhs); [|rr]. apply prel_ok. split; [reflexivity|exact Rc].
 Qed.
 
 Lemma infix_rel b s lhs c c' : rel b s c c' -> prel (orel b s) (infix T c lhs) (infix T c' lhs).
@@ -985,16 +973,22 @@ Proof.
   intros R. unfold infix. rewrite <- (rel_token b s c c' R).
   destruct (tok_is KArrow (token c)); [apply arrow_call_rel; exact R|].
   destruct (pt_postfix T (token c)).
-  - apply (ptry_rel (AR b s)); [apply call_A_rel; split; [reflexivity|exact R]| |apply prel_err].
+  - apply (ptry_rel (AR b s)); [apply call_A_rel; split; [reflexivity|exact R]| |rr].
     intros [a c1] [a' c1'] [Ha Rc]. cbn [fst snd] in Ha, Rc. subst a'. apply prel_ok. split; [reflexivity|exact Rc].
-  - destruct (pt_bin T (token c)) as [o|] eqn:Eb; [|apply prel_err]. cbv zeta.
+  - destruct (pt_bin T (token c)) as [o|] eqn:Eb.
+    2:{ assert (Nc : forall x, settled x -> token x <> TComment).
+        { intros x Sx Tx. unfold settled, token in *. destruct (post x) as [|t0 ts0]; [discriminate|].
+          subst t0. discriminate. }
+        destruct (prev_skip1_some c (Nc c (r_set _ _ _ _ R))) as [cp ->].
+        destruct (prev_skip1_some c' (Nc c' (r_set' _ _ _ _ R))) as [cp' ->]. apply prel_raise. }
+    cbv zeta.
     assert (Pl : opener (token c) = false /\ closer (token c) = false).
     { split.
       - destruct (opener (token c)) eqn:O; [|reflexivity].
         destruct (sane (token c) (or_introl O)) as [_ X]. congruence.
       - destruct (closer (token c)) eqn:Cl; [|reflexivity].
         destruct (sane (token c) (or_intror Cl)) as [_ X]. congruence. }
-    apply (ptry_rel (ER b s)); [| |apply prel_err].
+    apply (ptry_rel (ER b s)); [| |rr].
     + apply call_E_rel. split; [reflexivity|]. apply rel_skip_plain; [exact R|apply Pl|apply Pl].
     + intros [rhs c2] [rhs' c2'] [Hr Rc]. cbn [fst snd] in Hr, Rc. subst rhs'.
       apply prel_ok. split; [reflexivity|exact Rc].
@@ -1002,7 +996,7 @@ Qed.
 
 Lemma get_E_rel b s o o' : orel b s o o' -> prel (ER b s) (get_E o) (get_E o').
 Proof.
-  intros Ho. destruct o, o'; try contradiction; cbn [get_E]; try apply prel_err. apply prel_ok. exact Ho.
+  intros Ho. destruct o, o'; try contradiction; cbn [get_E]; try apply prel_panic. apply prel_ok. exact Ho.
 Qed.
 
 Lemma step_loop_rel b s p lhs c c' : rel b s c c' ->
@@ -1010,8 +1004,8 @@ Lemma step_loop_rel b s p lhs c c' : rel b s c c' ->
 Proof.
   intros R. unfold step_loop. rewrite <- (rel_token b s c c' R).
   destruct ((p <=? pt_prec T (token c)) && pt_valid T (token c)).
-  - apply (ptry_rel (ER b s)); [| |apply prel_err].
-    + apply (ptry_rel (orel b s)); [apply infix_rel; exact R| |apply prel_err]. intros o o' Ho. apply get_E_rel. exact Ho.
+  - apply (ptry_rel (ER b s)); [| |rr].
+    + apply (ptry_rel (orel b s)); [apply infix_rel; exact R| |rr]. intros o o' Ho. apply get_E_rel. exact Ho.
     + intros [e c1] [e' c1'] [He Rc]. cbn [fst snd] in He, Rc. subst e'.
       apply call_rel. repeat (split; [reflexivity|]). exact Rc.
   - apply prel_ok. split; [reflexivity|exact R].
@@ -1021,8 +1015,8 @@ Lemma step_prec_rel b s p c c' : rel b s c c' ->
   prel (orel b s) (step_prec T p c) (step_prec T p c').
 Proof.
   intros R. unfold step_prec.
-  apply (ptry_rel (ER b s)); [| |apply prel_err].
-  - apply (ptry_rel (orel b s)); [apply prefix_rel; exact R| |apply prel_err]. intros o o' Ho. apply get_E_rel. exact Ho.
+  apply (ptry_rel (ER b s)); [| |rr].
+  - apply (ptry_rel (orel b s)); [apply prefix_rel; exact R| |rr]. intros o o' Ho. apply get_E_rel. exact Ho.
   - intros [e c1] [e' c1'] [He Rc]. cbn [fst snd] in He, Rc. subst e'.
     apply call_rel. repeat (split; [reflexivity|]). exact Rc.
 Qed.
@@ -1075,8 +1069,9 @@ Theorem nl_in_brackets T : bracket_sane T ->
   (match ts' with TComment :: _ => False | _ => True end) ->
   match parse_expression T f ts, parse_expression T f ts' with
   | Ok (e, c), Ok (e', c') => e = e' /\ rel false [] c c'
-  | Err, Err => True
+  | Err _ _, Err _ _ => True
   | Fuel, Fuel => True
+  | Panic, Panic => True
   | _, _ => False
   end.
 Proof.
@@ -1084,8 +1079,8 @@ Proof.
   pose proof (go_rel T Hs f false [] (QPrec (pt_entry T) (init ts)) (QPrec (pt_entry T) (init ts'))
                 (conj eq_refl (init_rel ts ts' He F F' S S'))) as H.
   unfold resrel in H.
-  destruct (go T f (QPrec (pt_entry T) (init ts))) as [o| |],
-           (go T f (QPrec (pt_entry T) (init ts'))) as [o'| |]; try contradiction; cbn [as_E]; try exact I.
+  destruct (go T f (QPrec (pt_entry T) (init ts))) as [o|ce es| |],
+           (go T f (QPrec (pt_entry T) (init ts'))) as [o'|ce' es'| |]; try contradiction; cbn [as_E]; try exact I.
   destruct o, o'; try contradiction; try exact I. exact H.
 Qed.
 
@@ -1101,7 +1096,8 @@ Definition nl_in_brackets_statement_level (T : ptab) : Prop :=
   (match ts' with TComment :: _ => False | _ => True end) ->
   match parse_statement T f ts, parse_statement T f ts' with
   | Ok (s, _), Ok (s', _) => s = s'
-  | Err, Err => True
+  | Err _ _, Err _ _ => True
   | Fuel, Fuel => True
+  | Panic, Panic => True
   | _, _ => False
   end.
